@@ -342,6 +342,9 @@ class Executor:
         f = s.prog.get(base, cr)
         if f is not None: return s.eval_const_item(base, f.crate) if f.is_const else FnItem(base)
         if re.match(r'^[\w:<>&\', \[\]\(\)]+$', name): return FnItem(name)
+        if getattr(s, 'shared_static_stop', False) and re.match(r'^\{alloc\d+: &', c) and re.search(r'(Mutex|RwLock|Atomic[A-Z]\w*|Cell|OnceLock|LazyLock|LocalKey)\b', c):
+            # opt-in (C08): a reference to a static with interior mutability is itself a touch of process-wide mutable state
+            raise Stop('shared-state', 'static %s at %s' % (c[:100], short_name(fr.fn.name)))
         raise Unsupported('const ' + c)
 
     # ---- places
